@@ -570,7 +570,7 @@ fn mixed_run(seed: u64, run: u64, k: u64) -> RunOutcome {
         if first1024 {
             seq.push((1024, rng.seed32()));
         }
-        for _ in 0..4 {
+        for _ in 0..8 {
             seq.push((512, rng.seed32()));
         }
         if !first1024 {
@@ -889,7 +889,7 @@ pub fn context(tier: Tier, seed: u64) -> Result<Ctx, String> {
     if p512.keys.is_empty() || p1024.keys.is_empty() {
         return Err("shared signing key could not be generated on the current tree".into());
     }
-    let mixed = if tier == Tier::Quick { 8 } else { 64 };
+    let mixed = if tier == Tier::Quick { 12 } else { 96 };
     Ok(Ctx { shared: [0u8; 32], p512, p1024, r512, s512, o512, r1024, s1024, o1024, nb512, nb1024, mixed })
 }
 
